@@ -166,3 +166,71 @@ def bounded_names(tier, seed):
                 domain=f"all names of length <= {maxlen} over '{alphabet}' starting with [abAB_], plus every keyword / soft keyword / "
                        f"public BaseModel attribute in 7 spellings, x snake on/off x trim on/off x pydantic flag on/off",
                 cases=cases, failed=len(fails), failures=fails)
+
+
+# ------------------------------------------------------------------------------------------ pairs of names in one scope
+PAIRS = [("_id", "id"), ("fooBar", "foo_bar"), ("from", "from_"), ("__x", "_x"), ("Copy", "copy")]
+
+
+def _pair_outcome(scope, a, b, snake):
+    """'error' (generation refused), 'both' (both names usable), 'merged' (one silently lost), 'broken' (package does not load)"""
+    from . import e2e
+    enum_vals = f"{a} {b}" if scope == "enum-values" else "X Y"
+    fields = f"{a}: Int {b}: Int" if scope in ("input-fields", "response-keys") else "p: Int q: Int"
+    sdl = f"type Query {{ item(f: F, {a if scope == 'variables' else 'v1'}: Int, {b if scope == 'variables' else 'v2'}: Int): Item }}\n" \
+          f"type Item {{ {fields} e: E }}\ninput F {{ {fields} }}\nenum E {{ {enum_vals} }}\n"
+    sel = f"{a} {b}" if scope == "response-keys" else "p q e" if scope != "input-fields" else "e"
+    if scope == "variables":
+        q = f"query Q(${a}: Int, ${b}: Int) {{ item({a}: ${a}, {b}: ${b}) {{ p }} }}"
+    else:
+        q = f"query Q($f: F) {{ item(f: $f) {{ {sel} }} }}"
+    try:
+        g = e2e.generate_client(sdl, q, convert_to_snake_case=snake)
+    except Exception:      # noqa: any refusal is an acceptable outcome of the statement
+        return "error"
+    try:
+        try:
+            if scope == "input-fields":
+                aliases = {f.alias or n for n, f in g.module("input_types").F.model_fields.items()}
+                return "both" if {a, b} <= aliases else "merged"
+            if scope == "response-keys":
+                aliases = {f.alias or n for n, f in g.module("q").QItem.model_fields.items()}
+                return "both" if {a, b} <= aliases else "merged"
+            if scope == "enum-values":
+                values = {m.value for m in g.module("enums").E}
+                return "both" if {a, b} <= values else "merged"
+            import ast as _ast
+            fn = next(n for n in _ast.walk(_ast.parse(g.read("client.py"))) if isinstance(n, (_ast.FunctionDef, _ast.AsyncFunctionDef)) and n.name == "q")
+            params = [x.arg for x in fn.args.args if x.arg != "self"]
+            g.module("client")
+            return "both" if len(set(params)) >= 2 and len(params) == len(set(params)) else "merged"
+        except Exception:   # noqa
+            return "broken"
+    finally:
+        g.cleanup()
+
+
+def bounded_pairs(tier, seed):
+    """second sentence of the statement: `two distinct names in one scope are never silently merged into one Python name:
+    both remain usable or generation fails with an error` - end to end on the real generator"""
+    cases, fails = 0, []
+    for scope in ("input-fields", "response-keys", "variables", "enum-values"):
+        for a, b in PAIRS:
+            if scope == "enum-values" and not (a[0].isalpha() or a[0] == "_"):
+                continue
+            for snake in (True, False):
+                cases += 1
+                out = _pair_outcome(scope, a, b, snake)
+                if out in ("merged", "broken"):
+                    fails.append(dict(inputs=dict(scenario=f"{scope}:{a}/{b}:snake={snake}"), outcome=out,
+                                      failed=["distinct-names-never-silently-merged"]))
+    return dict(function="ariadne_codegen.main:client", name="bounded.name-pairs", kind="bounded stand-in (end-to-end, native)",
+                domain=f"{len(PAIRS)} pairs of distinct GraphQL names that map to one Python name x 4 scopes (input fields, response keys, "
+                       "variables of one operation, values of one enum) x snake-case on/off",
+                cases=cases, failed=len(fails), failures=fails)
+
+
+def witness_pairs():
+    out = bounded_pairs("quick", 0)
+    cases = sorted(f["inputs"]["scenario"] for f in out["failures"])
+    return dict(inputs={"scenario": "name-pairs"}, cases=cases, failed=["distinct-names-never-silently-merged"] if cases else [])
